@@ -61,7 +61,14 @@ def run(ctx: Context) -> None:
         ok = ear is not None and conc is not None and zero is not None and _line(conc) < _line(zero) and _line(zero) < _line(ear)
         ctx.check('R14.1', ok, "and exactly those cells are iterated by the ear clipping path (same index array)", td, ear or td.node,
                   construct='for i in concave: ...')
+        # the distinct lengths, of all cells (length 0 is then skipped in the loop) or of the cells that still have one
+        NONZERO = ('$length[$length != 0]', '$length[numpy.nonzero($length)]', '$length[$length > 0]', '$length[numpy.flatnonzero($length)]')
         ul = m.stmt('$unique = numpy.unique($length)')
+        zero_left_out = False
+        for alt in NONZERO:
+            if ul is None:
+                ul = m.stmt(f'$unique = numpy.unique({alt})')
+                zero_left_out = ul is not None
         bulk = m.stmt('for $ul in $unique:\n    ...')
         ok = ul is not None and bulk is not None and zero is not None and _line(ul) > _line(zero)
         ctx.check('R14.1', ok, "the fan path visits every remaining distinct length once (computed after the concave cells were removed)", td, ul or td.node,
@@ -83,7 +90,7 @@ def run(ctx: Context) -> None:
                 elif isinstance(t, ast.Name) and t.id == uln and pol is True:
                     skip_ok = True
         # no other condition may stand between a length and its batch
-        skip_ok = skip_ok and len(conds) == 1
+        skip_ok = (skip_ok and len(conds) == 1) or (zero_left_out and sel is not None and not conds)
         ctx.check('R14.1', skip_ok, "length 0 (no geometry, or handled by ear clipping) is skipped, and nothing else is", td, sel or bulk or td.node,
                   construct=f"batch selected under {conds}")
         sel = m.stmt('$batch = numpy.flatnonzero($length == $ul)', within=bulk) if bulk is not None else None
@@ -93,7 +100,8 @@ def run(ctx: Context) -> None:
     # ---- R14.3
     with ctx.section('R14.3'):
         if bulk is not None:
-            ok = m.has('$batch_polygons = $polygons[$batch]', '$fan = _triangulate_polygons_by_length($batch_polygons)', within=bulk)
+            ok = m.has('$batch_polygons = $polygons[$batch]', '$fan = _triangulate_polygons_by_length($batch_polygons)', within=bulk) \
+                or m.has('$fan = _triangulate_polygons_by_length($polygons[$batch])', within=bulk)
             ctx.check('R14.3', ok, "the batch's polygons are gathered with the batch's own index array and fanned together", td, bulk,
                       construct='fan = _triangulate_polygons_by_length(polygons[batch])')
             lab = m.stmt('for $fi, $tri in zip($batch, $fan):\n    _add_triangles(int($fi), $tri)', within=bulk)
@@ -118,7 +126,9 @@ def run(ctx: Context) -> None:
     # ---- R14.4
     with ctx.section('R14.4'):
         m.bind.update({k: v for k, v in (('labels', labels), ('coords', coords), ('cursor', cursor)) if v and v not in m.bind.values()})
-        tt = m.stmt('$total = numpy.sum($length[numpy.nonzero($length)] - 3)')
+        tt = None
+        for alt in NONZERO:
+            tt = tt or m.stmt(f'$total = numpy.sum({alt} - 3)')
         ok = tt is not None and zero is not None and _line(tt) < _line(zero)
         ctx.check('R14.4', ok, "total = sum over cells with geometry of (coordinate count - 3) = n - 2 triangles per n-gon, counted before concave cells are zeroed", td,
                   tt or td.node, construct='total = numpy.sum(length[numpy.nonzero(length)] - 3)')
@@ -161,7 +171,8 @@ def run(ctx: Context) -> None:
         vx = m.stmt('$vindex = pandas.MultiIndex.from_arrays($all_coords.T).drop_duplicates()')
         ctx.check('R14.5', vi is not None and vx is not None, "the vertex table is every polygon coordinate, de-duplicated (x, y) pairs", td, vx or td.node,
                   construct='vertex_index = MultiIndex.from_arrays(get_coordinates(polygons).T).drop_duplicates()')
-        ok = m.has('$vseries = pandas.Series(numpy.arange(len($vindex)), index=$vindex)', '$vcoords = numpy.array($vindex.to_list())')
+        ok = m.has('$vseries = pandas.Series(numpy.arange(len($vindex)), index=$vindex)', '$vcoords = numpy.array($vindex.to_list())') \
+            or m.has('$vseries = pandas.Series(numpy.arange(len($vindex)), index=$vindex)', '$vcoords = numpy.array($vseries.index.to_list())')
         ctx.check('R14.5', ok, "vertex k of the returned list is entry k of that table, and the join maps coordinates to those positions", td, vx or td.node,
                   construct='vertex_series = Series(arange(len(vertex_index)), index=vertex_index); vertex_coords = array(vertex_index.to_list())')
         vs = m.name('vseries')
@@ -202,7 +213,10 @@ def run(ctx: Context) -> None:
         ok = v1 is not None and v2 is not None and c3 is not None and _line(v1) > _line(c3) and _line(v2) > _line(c3)
         ctx.check('R14.2', ok, "v1 = vertices [1, n-1) and v2 = vertices [2, n): equal length n-2, shifted by one", tb, v1 or tb.node,
                   construct='v1 = c[:, 1:-1]; v2 = c[:, 2:]')
-        v0 = mb.stmt('$v0 = numpy.repeat($c[:, 0, :].reshape((-1, 1, 2)), repeats=$$reps, axis=1)')
+        # vertex 0 of every polygon with the vertex axis kept, as (polygon, 1, xy)
+        v0 = None
+        for first in ('$c[:, 0, :].reshape((-1, 1, 2))', '$c[:, 0].reshape((-1, 1, 2))', '$c[:, :1, :]', '$c[:, :1]', '$c[:, 0:1, :]', '$c[:, 0:1]', '$c[:, [0], :]', '$c[:, [0]]'):
+            v0 = v0 or mb.stmt(f'$v0 = numpy.repeat({first}, repeats=$$reps, axis=1)')
         ok0 = False
         if v0 is not None:
             reps = linear(bflow, mb.enodes.get('reps'), {mb.name('n'): symbol('n')})
